@@ -42,6 +42,33 @@ RULE = ("gamma surfaces: n1 x n2 grids (4-15) of Fourier-sum or random energies 
         "independent energy-per-area scale 10^j, j = -8..+8, the E_gsf values (K_tensor and tau x 10^(j-k), beta x 10^j, "
         "alpha x 10^(j-2k)); each surface loaded into an object in a history carries its own scales; all references are "
         "evaluated in the scaled units and every tolerance is relative (solve: k = -2..+2, see gens_c18).  "
+        "Generator classes carried over from the other properties (judged by the same oracles): "
+        "(A) result ledger - clauses ledger / ledger_pn keep every array, tuple and text a GammaSurface / SDVPN returned and compare it bit "
+        "for bit, and read every answer again, after 2-6 later operations (more calls on the same object, calls on / reloads / setters / a "
+        "solve of ANOTHER object on the same data or gamma surface); "
+        "(B) caller-side mutation - in the same histories the caller overwrites in place the arrays it handed in (shift vectors, sample "
+        "coordinates, energies; x, disregistry, tau, beta - held as float64 / non-contiguous / reversed-stride / read-only arrays, lists, "
+        "tuples, storage dtypes), re-defines its Box through every setter, builds another surface from the re-used objects, overwrites the "
+        "query arrays and the arrays it got back; inputs are compared with a snapshot after every call; "
+        "(C) storage dtypes - clauses coords_dtypes / pn_dtypes (and arctan) hand every array over as float32, float16, int8, int16, uint8, "
+        "uint16, big-endian float64 / int32, Fortran-ordered or reversed-stride arrays and numpy scalars holding exactly representable values "
+        "(eighths, whole coordinates up to the dtype limits, dyadic shift vectors, whole-angstrom grids, staircase disregistries); "
+        "(D) working units - a quarter to a half of the cases of coords, coords_multi, model, pn_terms, pn_total, arctan run under a unit "
+        "plan: atomman.unitconvert.reset_units(named units | integer seed | 'SI'), the physical system re-expressed with my own products of "
+        "numericalunits attributes (the default cutoff is 1000 angstrom, model units mJ/m^2, eV/angstrom^2, J/m^2, angstrom, nm), in half of "
+        "them after the same case was judged under the default units in the same process; always restored; "
+        "(E) near-threshold values - Cartesian shift vectors 10^-k degrees off a right angle / 10^-k off equal lengths (k = 3..12), query "
+        "coordinates 10^-k beside an integer line, a sample, a nearest-mode mid-line, the ends of the blending zone, a half-integer (and "
+        "exactly on them), positions and plotting axes a relative 10^-k (k >= 9) out of the fault plane, a disregistry with an out-of-plane "
+        "component of 10^-k b (k >= 11), xmax 10^-k off xstep (xnum-1)/2 (k >= 7); "
+        "(F) many decades in one call - clause decades (query rows of 1e-9 .. 1e2 cells in one array, every conversion judged row by row "
+        "relative to the magnitude of the row and against the row alone), disregistries growing over 9 decades and arctangent x grids "
+        "over 12 decades with every density row judged relative to itself; "
+        "(G) exactly structured inputs - signed axis directions as shift vectors (no rotation), m / n given as signed axis vectors and "
+        "the crystal rotation as a signed permutation, exact samples / halves as coordinates; "
+        "(H) enumerated options - clause pn_options: every combination of fullstress / cdiffelastic / cdiffsurface / cdiffstress from "
+        "every other one through the setters in every order, through the constructor and through solve() keywords, all terms judged after "
+        "every single change (the keyword combinations of the conversions are enumerated in coords_multi).  "
         "Non-trivial: surfaces - oblique shift vectors or an array-valued query; PN - disregistry with non-zero edge and "
         "screw parts and at least one of tau/alpha/beta active; solve - the same with >= 7 points; halfwidth and arctan - "
         "every case (generic parameters)")
@@ -57,16 +84,28 @@ ASSUMPTIONS = ["numpy/scipy linear algebra and scipy.optimize are correct",
                "absolute tolerances of the Stroh / isotropic solvers are C12's business) and handed to SDVPN in the scaled "
                "units through a VolterraDislocation subclass with given m, n, K_tensor, burgers, transform",
                "the tolerances that atomman documents as arguments or defaults in working units are given scaled "
-               "(cutofflongrange; its documented default of 1000 working units is taken literally)"]
+               "(cutofflongrange; its documented default is 1000 angstrom: 1000 working units in the default units, 1000 x "
+               "numericalunits.angstrom under a unit plan)",
+               "unit plans: numericalunits and the way unitconvert.reset_units drives it are trusted (C09's subject); the size of "
+               "every unit is my own product of numericalunits attributes read after reset_units",
+               "storage dtypes: the data columns a1, a2, E_gsf, delta are never big-endian (they go into the documented pandas "
+               "DataFrame .data, and pandas documents that it needs native byte order); everything else is",
+               "ledger clauses: a value counts as unchanged when its bits are (returned objects) resp. when it agrees to 1e-13 "
+               "relative (answers read again); what the class hands out as its state (a1vect, a2vect, planenormal, box, data; x, "
+               "disregistry, tau, beta, K_tensor, burgers, transform) is read again but not overwritten by the caller"]
 LEVEL_TEXT = ("Generated-input exploration of GammaSurface (interpolation at samples, periodicity, coordinate conversions for "
               "one and many points under every combination of the a1vect/a2vect/xvect keywords, JSON/XML model round trip) and "
               "SDVPN (every energy term against independent formula evaluation, total = sum, quadratic/shift properties of the "
               "elastic term, solve monotone with fixed ends and storing the minimiser's result, classical half-width recovered "
               "for a sinusoidal misfit law), with object histories and the documented input forms (lists, tuples, integer-typed, "
               "read-only, non-contiguous arrays; caller's arrays unchanged), every clause also in other units: lengths scaled "
-              "by 1e-12..1e4 and energies per area by 1e-8..1e8 independently, judged with relative tolerances.")
+              "by 1e-12..1e4 and energies per area by 1e-8..1e8 independently, judged with relative tolerances; under other "
+              "working-unit configurations (reset_units) within one process; with storage dtypes, near-threshold, exactly structured "
+              "and many-decade inputs; with result ledgers under later calls and caller-side mutation; all flag combinations of SDVPN "
+              "enumerated in every setter order.")
 TECHNIQUE = ("input energies at samples, exact nearest-sample table, integer-period invariance, independent 2D basis "
-             "solves, scalar-loop PN sums, summation-by-parts identity, analytic PN half-width")
+             "solves, scalar-loop PN sums, summation-by-parts identity, analytic PN half-width; bit-for-bit result ledgers and "
+             "re-read answers under histories of later calls and caller-side mutation; exhaustive flag-combination walks")
 WALL = {'quick': 75, 'thorough': 600}
 
 EPS = 2.3e-16
@@ -2378,10 +2417,12 @@ def _rows(got, exp, rowtol, what, mags):
     if err.ndim == 2:
         err = err.max(axis=1)
     bad = err > rowtol
-    require(not bad.any(), lambda: '%s: row %d (magnitude %.3g) is %r, expected %r: off by %.3g, judged relative to the magnitude of that row '
-            '(tol %.3g); the rows of this call span magnitudes %.3g .. %.3g'
-            % (what, int(np.argwhere(bad)[0][0]), mags[np.argwhere(bad)[0][0]][0], got[np.argwhere(bad)[0][0]][0].tolist(),
-               exp[np.argwhere(bad)[0][0]][0].tolist(), err[bad][0], rowtol[bad][0], mags.min(), mags.max()))
+    if bad.any():
+        i = int(np.argwhere(bad)[0][0])
+        raise Violation('%s: row %d (magnitude %.3g) is %r, expected %r: off by %.3g, judged relative to the magnitude of that row '
+                        '(tol %.3g); the rows of this call span magnitudes %.3g .. %.3g'
+                        % (what, i, float(np.asarray(mags).reshape(-1)[i]), got[i].tolist(), exp[i].tolist(), float(err[i]), float(np.asarray(rowtol).reshape(-1)[i]),
+                           float(np.min(mags)), float(np.max(mags))))
 
 
 def oracle_decades(case):
@@ -2398,7 +2439,8 @@ def oracle_decades(case):
     sm = bool(case['smooth'])
     form = case.get('form') or 'arr'
     H = _Hand(form)
-    labels.update({'form_' + form, 'smooth' if sm else 'nearest', 'decades_%d' % int(round(math.log10(mags.max() / mags.min())))})
+    span = math.log10(mags.max() / mags.min())
+    labels.update({'form_' + form, 'smooth' if sm else 'nearest', 'decades_%d' % int(span), 'decades>=8' if span >= 8.0 else 'decades<8'})
     xv = None
     if case['xv'] is not None:
         xv = case['xv'][0] * A1 + case['xv'][1] * A2
@@ -2448,7 +2490,7 @@ def oracle_decades(case):
         ea = np.asarray(fn(a1=H(u, 'a1'), a2=H(v, 'a2'), smooth=sm), dtype=float)
         require(ea.shape == (n,), lambda: '%s(a1=, a2=) returned shape %r for %d rows' % (name, ea.shape, n))
         e1 = np.array([float(fn(a1=float(a), a2=float(b), smooth=sm)) for a, b in zip(u, v)])
-        _cmp(ea[ok], e1[ok], 1e-11 * rng, '%s(a1=, a2=, smooth=%r) of an array whose rows span many decades vs every row alone' % (name, sm))
+        _cmp(ea[ok], e1[ok], 1e-9 * rng, '%s(a1=, a2=, smooth=%r) of an array whose rows span many decades vs every row alone' % (name, sm))
         base, lo, hi, hit = eval_band(fn, u, v, sm, seam)
         ep = np.asarray(fn(pos=H(P, 'pos'), smooth=sm), dtype=float)
         _in_band(ep[ok], lo[ok], hi[ok], 1e-8 * rng * cond, '%s(pos=(%d,3) array, smooth=%r) vs %s(a1=, a2=)' % (name, n, sm, name))
@@ -2456,7 +2498,7 @@ def oracle_decades(case):
         _in_band(ep1[ok], lo[ok], hi[ok], 1e-8 * rng * cond, '%s(pos= one row alone, smooth=%r) vs %s(a1=, a2=)' % (name, sm, name))
         # (a row exactly on an integer line of a surface without blending may land on either side, see eval_band)
         off = ok & ~np.array([sm and seam and (_near_int(a) or _near_int(b)) for a, b in zip(u, v)])
-        _cmp(ep[off], ep1[off], 1e-10 * rng * cond, '%s(pos=, smooth=%r) of the array vs every row alone' % (name, sm))
+        _cmp(ep[off], ep1[off], 1e-9 * rng * cond, '%s(pos=, smooth=%r) of the array vs every row alone' % (name, sm))
         exy = np.asarray(fn(x=H(X, 'x'), y=H(Y, 'y'), smooth=sm, **kw_x), dtype=float)
         _in_band(exy[ok], lo[ok], hi[ok], 1e-8 * rng * cond, '%s(x=, y=, smooth=%r) vs %s(a1=, a2=)' % (name, sm, name))
     H.verify(' [E_gsf / delta]')
@@ -3042,13 +3084,19 @@ def oracle_pn_options(case):
     labels = {'via_' + case['via'], 'nchanged_%d' % len(case['order']), 'sys_%d' % case['sys'], 'nt'}
 
     def judge(tag):
+        # the flags first, then the total (the object exactly as the setters left it), then every term (judge_terms switches
+        # the stress flags itself, and back)
+        for f in G.FLAGS:
+            require(getattr(pn, f) is st_[f], lambda: 'flag %s reads %r, the combination set is %s%s'
+                    % (f, getattr(pn, f), ', '.join('%s=%r' % (t, st_[t]) for t in G.FLAGS), tag))
         try:
-            judge_terms(pn, S, K, st_, x, d, (x, d), {}, set())
             judge_total(pn, S, K, st_, x, d, (x, d), {}, set())
+            judge_terms(pn, S, K, st_, x, d, (x, d), {}, set())
         except Violation as e:
             raise Violation('%s [flags %s%s]' % (e.detail, ', '.join('%s=%r' % (f, st_[f]) for f in G.FLAGS), tag), key=e.key)
         for f in G.FLAGS:
-            require(getattr(pn, f) is st_[f], lambda: 'flag %s reads %r, was set to %r%s' % (f, getattr(pn, f), st_[f], tag))
+            require(getattr(pn, f) is st_[f], lambda: 'flag %s reads %r after the energy evaluations, the combination set is %s%s'
+                    % (f, getattr(pn, f), ', '.join('%s=%r' % (t, st_[t]) for t in G.FLAGS), tag))
 
     judge(' given to the constructor')
     if case['via'] == 'setters':
@@ -3080,28 +3128,44 @@ def _periodic_cases(draw):
     return c
 
 
+def oracle_coords_dtypes(case):
+    """storage dtypes: the case is judged by both conversion oracles (coords, coords_multi)"""
+    return set(oracle_coords(case)) | set(oracle_coords_multi(case))
+
+
+def oracle_pn_dtypes(case):
+    """storage dtypes: the case is judged by both energy oracles (pn_terms, pn_total)"""
+    return set(oracle_pn_terms(case)) | set(oracle_pn_total(case))
+
+
+import functools                               # noqa: E402
+
 CLAUSES = [
     # min_share values are about half of the share observed on the unchanged /repo, where the cases that hit an open
     # finding are excluded without labels (they still count in the denominator)
-    Clause('interp', oracle_interp, G.interp_cases, quick=900, thorough=16000,
-           min_share={'nt': 0.45, 'oblique': 0.35, 'dup_edge': 0.25, 'delta': 0.2, 'kind_random': 0.18, 'list': 0.2,
+    Clause('interp', oracle_interp, G.interp_cases, quick=780, thorough=16000,
+           min_share={'shape_sym': 0.015, 'shape_near': 0.015, 'nt': 0.45, 'oblique': 0.35, 'dup_edge': 0.25, 'delta': 0.2, 'kind_random': 0.18, 'list': 0.2,
                       'history': 0.2, 'history_reload_set': 0.1, 'history_reload_model': 0.1, 'history_back': 0.08,
                       'lscale_1': 0.2, 'lscale_small': 0.2, 'lscale<=1e-5': 0.14, 'lscale_big': 0.05,
                       'escale_1': 0.2, 'escale_small': 0.14, 'escale_big': 0.11, 'scaled_both': 0.15},
            desc='E_gsf/delta reproduce every input value at its sampled (a1,a2), smooth and nearest modes, arrays/lists/floats'),
-    Clause('periodic', oracle_periodic, _periodic_cases, quick=900, thorough=16000,
-           min_share={'nt': 0.35, 'oblique': 0.28, 'shifted': 0.35, 'scalar': 0.18, 'history_mode_order': 0.2, 'history_mode_back': 0.1,
+    Clause('periodic', oracle_periodic, _periodic_cases, quick=780, thorough=16000,
+           min_share={'special_q': 0.11, 'shape_sym': 0.015, 'shape_near': 0.015, 'nt': 0.35, 'oblique': 0.28, 'shifted': 0.35, 'scalar': 0.18, 'history_mode_order': 0.2, 'history_mode_back': 0.1,
                       'lscale_1': 0.2, 'lscale_small': 0.17, 'lscale_big': 0.05, 'escale_1': 0.22, 'escale_small': 0.1, 'escale_big': 0.11},
            desc='E(a1+k1, a2+k2) = E(a1, a2) for integer periods; nearest mode equals the exact nearest-sample table'),
-    Clause('coords', with_units(keyed_f16(keyed_inplane_assert(oracle_coords))), G.coords_cases, quick=1200, thorough=20000,
-           min_share={'nt': 0.45, 'oblique': 0.4, 'npts3': 0.15, 'xvect': 0.18, 'scalar': 0.18,
+    Clause('coords', with_units(keyed_f16(keyed_inplane_assert(oracle_coords))), G.coords_cases, quick=1020, thorough=20000,
+           min_share={'special_q': 0.12, 'near_plane_pos': 0.2, 'near_plane_xvect': 0.08, 'units': 0.08, 'units_pre_default': 0.035,
+                      'units_named': 0.05, 'units_seed': 0.015, 'units_SI': 0.006, 'shape_sym': 0.015, 'shape_near': 0.015,
+                      'nt': 0.45, 'oblique': 0.4, 'npts3': 0.15, 'xvect': 0.18, 'scalar': 0.18,
                       'history': 0.25, 'history_reload_set': 0.08, 'history_reload_model': 0.08, 'history_swap': 0.08, 'history_other_mode': 0.04,
                       'form_ro': 0.06, 'form_strided': 0.05, 'form_tuple': 0.04, 'form_npscalar': 0.04, 'form_int': 0.05, 'int_typed': 0.04,
                       'lscale_1': 0.22, 'lscale_small': 0.15, 'lscale<=1e-5': 0.1, 'lscale_big': 0.06,
                       'escale_small': 0.1, 'escale_big': 0.09},
            desc='a12_to_pos, pos_to_xy, xy_to_pos, a12_to_xy, pos_to_a12(single) against independent basis algebra; mutual inverses'),
-    Clause('coords_multi', with_units(keyed_f16(keyed_inplane_assert(oracle_coords_multi))), G.coords_cases, quick=1200, thorough=20000,
-           min_share=_BlockedGuard({'nt': 0.3, 'oblique': 0.25, 'npts3': 0.1, 'npts7': 0.06, 'altvect': 0.18, 'smooth': 0.15, 'nearest': 0.2,
+    Clause('coords_multi', with_units(keyed_f16(keyed_inplane_assert(oracle_coords_multi))), G.coords_cases, quick=1020, thorough=20000,
+           min_share=_BlockedGuard({'special_q': 0.12, 'near_plane_pos': 0.2, 'near_plane_xvect': 0.08, 'units': 0.08,
+                                    'units_pre_default': 0.035, 'units_named': 0.05, 'units_seed': 0.015, 'units_SI': 0.006,
+                                    'shape_sym': 0.015, 'shape_near': 0.015, 'nt': 0.3, 'oblique': 0.25, 'npts3': 0.1, 'npts7': 0.06, 'altvect': 0.18, 'smooth': 0.15, 'nearest': 0.2,
                                     'history': 0.25, 'history_reload_set': 0.1, 'history_reload_model': 0.08, 'history_swap': 0.1,
                                     'history_other_mode': 0.05,
                                     'combo_both_xdefault': 0.18, 'combo_both_xexplicit': 0.18, 'combo_a1only_xdefault': 0.18,
@@ -3115,12 +3179,19 @@ CLAUSES = [
                                              'combo_a1only_xexplicit', 'combo_a2only_xdefault', 'combo_a2only_xexplicit')),
            desc='pos_to_a12 / xy_to_a12 on 1,2,3,7 positions; E_gsf and delta given a1/a2, pos, x/y agree; every combination of the '
                 'keywords a1vect / a2vect / xvect of all conversion methods and of E_gsf / delta; input forms; caller\'s arrays unchanged'),
-    Clause('model', with_units(oracle_model), G.model_cases, quick=400, thorough=6000,
-           min_share={'nt': 0.3, 'json': 0.3, 'history_load_into_existing': 0.2,
+    Clause('coords_dtypes', keyed_f16(keyed_inplane_assert(oracle_coords_dtypes)), functools.partial(G.coords_cases, True), quick=260, thorough=5000,
+           min_share=_BlockedGuard({'nt': 0.45, 'narrow': 0.5, 'form_narrow': 0.5, 'history': 0.2, 'altvect': 0.15, 'narrow_f4': 0.2, 'int_typed': 0.08},
+                                   drop_alt=('altvect',)),
+           desc='storage and input dtypes of the conversions and of E_gsf / delta: float32, float16, int8, int16, uint8, uint16, big-endian, Fortran / '
+                'reversed-stride arrays and numpy scalars holding exactly representable values (eighths, whole coordinates up to the dtype limits, '
+                'dyadic shift vectors), judged by the oracles of coords and coords_multi'),
+    Clause('model', with_units(oracle_model), G.model_cases, quick=350, thorough=6000,
+           min_share={'units': 0.07, 'units_pre_default': 0.03, 'nt': 0.3, 'json': 0.3, 'history_load_into_existing': 0.2,
                       'lscale_1': 0.2, 'lscale_small': 0.19, 'lscale_big': 0.05, 'escale_1': 0.22, 'escale_small': 0.1, 'escale_big': 0.09},
            desc='model() -> JSON/XML text, DataModelDict or file -> GammaSurface: same data, vectors, box, answers'),
-    Clause('pn_terms', with_units(keyed_dtype(oracle_pn_terms)), G.pn_hist_cases, quick=1500, thorough=25000,
-           min_share=_BlockedGuard({'nt': 0.16, 'mixed': 0.23, 'K_offdiag': 0.13, 'N>120': 0.1, 'cdiffelastic': 0.15, 'tau': 0.15,
+    Clause('pn_terms', with_units(keyed_dtype(oracle_pn_terms)), G.pn_hist_cases, quick=1280, thorough=25000,
+           min_share=_BlockedGuard({'frame_signed_axes': 0.12, 'near_inplane_dy': 0.12, 'profile_decades': 0.015, 'units': 0.05,
+                                    'units_pre_default': 0.02, 'nt': 0.16, 'mixed': 0.23, 'K_offdiag': 0.13, 'N>120': 0.1, 'cdiffelastic': 0.15, 'tau': 0.15,
                                     'history': 0.2, 'history_same_len_new_spacing': 0.12, 'history_setter_between': 0.15,
                                     'history_settings_changed': 0.12, 'history_new_len': 0.06, 'history_steps>=2': 0.15,
                                     'forms': 0.35, 'history_forms': 0.2, 'int_typed': 0.2, 'xform_int': 0.1, 'dform_int': 0.07,
@@ -3130,8 +3201,9 @@ CLAUSES = [
                                    drop_listarg=('list_args',)),
            desc='disldensity, elastic, long-range, stress (both forms), surface, nonlocal vs independent formula evaluation; quadratic form, rigid shift; '
                 'repeated evaluations on one object (arguments / setters / changed settings)'),
-    Clause('pn_total', with_units(keyed_dtype(keyed_inplane_assert(oracle_pn_total))), G.pn_hist_cases, quick=1000, thorough=16000,
-           min_share=_BlockedGuard({'nt': 0.15, 'mixed': 0.23, 'wraps': 0.1, 'crystal_rot': 0.15,
+    Clause('pn_total', with_units(keyed_dtype(keyed_inplane_assert(oracle_pn_total))), G.pn_hist_cases, quick=850, thorough=16000,
+           min_share=_BlockedGuard({'frame_signed_axes': 0.12, 'near_inplane_dy': 0.12, 'profile_decades': 0.015, 'units': 0.03,
+                                    'units_pre_default': 0.012, 'nt': 0.15, 'mixed': 0.23, 'wraps': 0.1, 'crystal_rot': 0.15,
                                     'history': 0.17, 'history_same_len_new_spacing': 0.09, 'history_setter_between': 0.12,
                                     'history_settings_changed': 0.06, 'history_new_len': 0.035,
                                     'forms': 0.35, 'history_forms': 0.2, 'int_typed': 0.2, 'xform_int': 0.1, 'dform_int': 0.07,
@@ -3141,6 +3213,10 @@ CLAUSES = [
                                    drop_listarg=('list_args',)),
            desc='misfit energy vs dx*sum gamma(delta) by independent conversion; total = sum of the six terms = independent evaluation; '
                 'repeated evaluations on one object'),
+    Clause('pn_dtypes', keyed_dtype(keyed_inplane_assert(oracle_pn_dtypes)), functools.partial(G.pn_hist_cases, True), quick=260, thorough=5000,
+           min_share=_BlockedGuard({'forms_narrow': 0.4, 'narrow': 0.3, 'history': 0.15, 'nt': 0.15}),
+           desc='storage dtypes of x / the disregistry (arguments, setters, histories): float32, float16, int8, int16, uint8, uint16, big-endian, '
+                'Fortran / reversed-stride arrays holding whole numbers, judged by the oracles of pn_terms and pn_total'),
     Clause('solve', keyed_dtype(keyed_inplane_assert(oracle_solve)), G.solve_cases, quick=64, thorough=640, max_share={'timeout_skipped': 0.2},
            min_share=_BlockedGuard({'moved': 0.5, 'lowered': 0.4, 'history': 0.28, 'history_same_len_new_spacing': 0.05,
                                     'history_eval_between_store_and_solve': 0.07,
@@ -3152,18 +3228,21 @@ CLAUSES = [
     Clause('halfwidth', oracle_halfwidth, G.halfwidth_cases, quick=32, thorough=320,
            min_share=_BlockedGuard({'scaled': 0.3, 'lscale_small': 0.12, 'lscale_1': 0.2}),
            desc='sinusoidal misfit law: arctangent profile of lowest total energy has the classical half-width K b^2/(4 pi^2 gamma0)'),
-    Clause('decades', oracle_decades, G.decades_cases, quick=400, thorough=8000,
+    Clause('decades', oracle_decades, G.decades_cases, quick=300, thorough=6000, min_share={'nt': 0.45, 'decades>=8': 0.45, 'oblique': 0.25},
            desc='one query array whose rows span 8-11 orders of magnitude: every conversion row by row relative to the magnitude of the row and '
                 'equal to the call with that row alone; E_gsf / delta of the array equal every row alone'),
-    Clause('ledger', oracle_ledger, G.ledger_cases, quick=400, thorough=8000,
+    Clause('ledger', oracle_ledger, G.ledger_cases, quick=300, thorough=6000,
+           # (shares over the cases that do not meet an open finding: on the unchanged tree about half of the cases do)
+           min_share={'op_call_same': 0.2, 'op_overwrite_in': 0.15, 'op_overwrite_out': 0.1, 'op_overwrite_query': 0.12, 'ledger_grew': 0.25, 'held_arr': 0.4},
            desc='result ledger and caller-side mutation for GammaSurface: everything returned is kept and re-judged bit for bit, every answer is read '
                 'again, after later calls on this and another surface and after the caller overwrote / re-defined / re-used what it handed in and got back'),
-    Clause('ledger_pn', keyed_inplane_assert(oracle_ledger_pn), G.ledger_pn_cases, quick=300, thorough=6000,
+    Clause('ledger_pn', keyed_inplane_assert(oracle_ledger_pn), G.ledger_pn_cases, quick=200, thorough=4000,
+           min_share=_BlockedGuard({'op_eval_same': 0.12, 'op_eval_other_obj': 0.12, 'op_solve_other_obj': 0.1, 'held_arr': 0.4}),
            desc='the same for SDVPN: x / disregistry / tau / beta overwritten by the caller, arrays returned by disldensity overwritten, another '
                 'object on the same gamma surface evaluated, re-set and solved'),
     Clause('pn_options', oracle_pn_options, enumerate=G.option_cases,
            desc='every combination of fullstress / cdiffelastic / cdiffsurface / cdiffstress reached from every other one through the setters in every '
                 'order, through the constructor and through solve() keywords; all terms judged after every single change'),
-    Clause('arctan', with_units(oracle_arctan), G.arctan_cases, quick=1500, thorough=25000, min_share={'nt': 0.5, 'normalize': 0.2, 'derivative': 0.15, 'lscale_1': 0.2, 'lscale_small': 0.2, 'lscale<=1e-5': 0.13, 'lscale_big': 0.06},
+    Clause('arctan', with_units(oracle_arctan), G.arctan_cases, quick=1400, thorough=25000, min_share={'near_xmax': 0.07, 'x_decades': 0.04, 'units': 0.1, 'units_pre_default': 0.05, 'nt': 0.5, 'normalize': 0.2, 'derivative': 0.15, 'lscale_1': 0.2, 'lscale_small': 0.2, 'lscale<=1e-5': 0.13, 'lscale_big': 0.06},
            desc='pn_arctan_disregistry / pn_arctan_disldensity against the analytic forms, normalisation, x generation'),
 ]
